@@ -48,7 +48,9 @@ Inductive stmt :=
   (* the (value, error) convention (C08): return a, e  and  x, xe = f(args); errors are nil or not, like pointers
      (e: nil, a freshly made error, or an error variable) *)
   | SReturn2 (a e : atom_e)
-  | SCall2 (cs : nat) (x xe : option var) (f : fname) (args : list atom_e).
+  | SCall2 (cs : nat) (x xe : option var) (f : fname) (args : list atom_e)
+  (* return f(args): both results of an error-returning callee are handed on as they are *)
+  | SRetCall (cs : nat) (f : fname) (args : list atom_e).
 
 Record func := { f_nparams : nat; f_body : stmt }.
 (* function f is nth f of p_funcs, function 0 is the entry point; p_ginit k tells whether package-level
@@ -164,6 +166,16 @@ Section Exec.
               match exec fuel' (f_body fd) (bind_params 0 (map (eval_atom s) args) ++ globals_of s) oracle with
               | ONormal s' o' => ONormal (after s' VNil VNil) o'
               | OReturn v s' o' => ONormal (after s' v (sget s' VERR)) o'
+              | r => r
+              end
+          end
+      | SRetCall _ f args =>
+          match nth_error (p_funcs prog) f with
+          | None => OOutOfFuel
+          | Some fd =>
+              match exec fuel' (f_body fd) (bind_params 0 (map (eval_atom s) args) ++ globals_of s) oracle with
+              | ONormal s' o' => OReturn VNil (sset (globals_of s' ++ locals_of s) VERR VNil) o'
+              | OReturn v s' o' => OReturn v (sset (globals_of s' ++ locals_of s) VERR (sget s' VERR)) o'
               | r => r
               end
           end
